@@ -1,5 +1,7 @@
 import CJ.Lemmas.Config
 import CJ.Lemmas.Liveness
+import CJ.Model.Covert
+import CJ.Gen.C19Guards
 /-!
 # C19 — accepted configurations run housekeeping safely; a bad reload changes nothing
 
@@ -221,6 +223,214 @@ theorem housekeeping_no_panic (t : CJ.Liveness.Tester) :
 theorem housekeeping_no_panic_run (cfg : CJ.Liveness.Config) (ops : List CJ.Liveness.Op) :
     printStats (CJ.Liveness.run cfg ops) ≠ .panic := by
   rw [housekeeping_no_panic]; simp
+
+/-! ### from "the entry is in the parsed list" to "the entry decides"
+
+`accepted_enforces_every_entry` ends at the parsed lists.  The statements below continue to the decision
+functions the station consults (`isBlocklistedCovertAddr`, `isBlocklistedCovertDomain`,
+`IsBlocklistedPhantom`) and on to the covert-address admission of C06 (`parseOrResolve` over the same
+lists): a configured entry decides every address / host name it covers, and nothing else decides. -/
+
+section enforcement
+variable {IP : Type}
+
+/-- without an allowlist: an address is refused as covert address iff a configured blocklist entry (or,
+with `covert_blocklist_public_addrs`, a local interface subnet) contains it -/
+theorem blocklist_enforced_iff (cidr : String → Outcome Net) (re : String → Outcome Pat)
+    (ifaces : Option (List Net)) (raw : Raw) (parsed : Parsed Net Pat)
+    (h : parseBlocklists cidr re ifaces raw = .ok parsed) (hno : raw.allow = [])
+    (contains : Net → IP → Bool) (ip : IP) :
+    parsed.covertAddrBlocked contains ip = true ↔
+      (∃ s ∈ raw.block, ∃ n, cidr s = .ok n ∧ contains n ip = true) ∨
+      (raw.publicAddrs = true ∧ ∃ nets, ifaces = some nets ∧ ∃ n ∈ nets, contains n ip = true) := by
+  obtain ⟨_, _, _, ha, hen, _⟩ := accepted_enforces_every_entry cidr re ifaces raw parsed h
+  obtain ⟨blk, hb, hbe⟩ := parseBlocklists_block cidr re ifaces raw parsed h
+  have hal : parsed.allow = [] := by rw [hno] at ha; exact parsesTo_nil cidr _ ha
+  have hoff : parsed.enableAllow = false := by
+    cases he : parsed.enableAllow with
+    | false => rfl
+    | true => exact absurd hal (hen.mp he)
+  unfold Parsed.covertAddrBlocked
+  simp only [hoff, Bool.false_eq_true, if_false, hbe, List.any_append, Bool.or_eq_true, List.any_eq_true]
+  constructor
+  · rintro (⟨n, hn, hc⟩ | ⟨n, hn, hc⟩)
+    · obtain ⟨s, hs, hp⟩ := parsesTo_mem_rev cidr raw.block blk hb n hn
+      exact Or.inl ⟨s, hs, n, hp, hc⟩
+    · right
+      unfold publicExtra at hn
+      cases hp : raw.publicAddrs with
+      | false => simp [hp] at hn
+      | true =>
+        simp only [hp, if_true] at hn
+        cases ifaces with
+        | none => simp at hn
+        | some nets => exact ⟨rfl, nets, rfl, n, hn, hc⟩
+  · rintro (⟨s, hs, n, hp, hc⟩ | ⟨hp, nets, rfl, n, hn, hc⟩)
+    · exact Or.inl ⟨n, parsesTo_mem cidr raw.block blk hb s hs n hp, hc⟩
+    · right
+      unfold publicExtra
+      simp only [hp, if_true, Option.getD_some]
+      exact ⟨n, hn, hc⟩
+
+/-- with an allowlist: an address is refused iff no configured allowlist entry contains it (the allowlist
+takes precedence: the blocklist is not consulted) -/
+theorem allowlist_enforced_iff (cidr : String → Outcome Net) (re : String → Outcome Pat)
+    (ifaces : Option (List Net)) (raw : Raw) (parsed : Parsed Net Pat)
+    (h : parseBlocklists cidr re ifaces raw = .ok parsed) (hne : raw.allow ≠ [])
+    (contains : Net → IP → Bool) (ip : IP) :
+    parsed.covertAddrBlocked contains ip = false ↔ ∃ s ∈ raw.allow, ∃ n, cidr s = .ok n ∧ contains n ip = true := by
+  obtain ⟨_, _, _, ha, _, hon⟩ := accepted_enforces_every_entry cidr re ifaces raw parsed h
+  unfold Parsed.covertAddrBlocked
+  simp only [hon hne, if_true, Bool.not_eq_false', List.any_eq_true]
+  constructor
+  · rintro ⟨n, hn, hc⟩
+    obtain ⟨s, hs, hp⟩ := parsesTo_mem_rev cidr raw.allow parsed.allow ha n hn
+    exact ⟨s, hs, n, hp, hc⟩
+  · rintro ⟨s, hs, n, hp, hc⟩
+    exact ⟨n, parsesTo_mem cidr raw.allow parsed.allow ha s hs n hp, hc⟩
+
+/-- a host name is refused iff a configured pattern matches it -/
+theorem domains_enforced_iff (cidr : String → Outcome Net) (re : String → Outcome Pat)
+    (ifaces : Option (List Net)) (raw : Raw) (parsed : Parsed Net Pat)
+    (h : parseBlocklists cidr re ifaces raw = .ok parsed) (matchString : Pat → String → Bool) (host : String) :
+    parsed.covertDomainBlocked matchString host = true ↔
+      ∃ s ∈ raw.domains, ∃ r, re s = .ok r ∧ matchString r host = true := by
+  obtain ⟨_, hd, _, _, _, _⟩ := accepted_enforces_every_entry cidr re ifaces raw parsed h
+  unfold Parsed.covertDomainBlocked
+  simp only [List.any_eq_true]
+  constructor
+  · rintro ⟨r, hr, hc⟩
+    obtain ⟨s, hs, hp⟩ := parsesTo_mem_rev re raw.domains parsed.domains hd r hr
+    exact ⟨s, hs, r, hp, hc⟩
+  · rintro ⟨s, hs, r, hp, hc⟩
+    exact ⟨r, parsesTo_mem re raw.domains parsed.domains hd s hs r hp, hc⟩
+
+/-- a phantom address is refused iff a configured phantom-blocklist entry contains it -/
+theorem phantom_enforced_iff (cidr : String → Outcome Net) (re : String → Outcome Pat)
+    (ifaces : Option (List Net)) (raw : Raw) (parsed : Parsed Net Pat)
+    (h : parseBlocklists cidr re ifaces raw = .ok parsed) (contains : Net → IP → Bool) (ip : IP) :
+    parsed.phantomBlocked contains ip = true ↔ ∃ s ∈ raw.phantom, ∃ n, cidr s = .ok n ∧ contains n ip = true := by
+  obtain ⟨_, _, hp', _, _, _⟩ := accepted_enforces_every_entry cidr re ifaces raw parsed h
+  unfold Parsed.phantomBlocked
+  simp only [List.any_eq_true]
+  constructor
+  · rintro ⟨n, hn, hc⟩
+    obtain ⟨s, hs, hp⟩ := parsesTo_mem_rev cidr raw.phantom parsed.phantom hp' n hn
+    exact ⟨s, hs, n, hp, hc⟩
+  · rintro ⟨s, hs, n, hp, hc⟩
+    exact ⟨n, parsesTo_mem cidr raw.phantom parsed.phantom hp' s hs n hp, hc⟩
+
+/-- the address policy C06's admission model is evaluated with, built from the parsed configuration -/
+def toPolicy (p : Parsed Net Pat) : CJ.Covert.Policy Net Pat :=
+  { block := p.block, allow := p.allow, enableAllow := p.enableAllow, domains := p.domains }
+
+theorem toPolicy_addr (env : CJ.Covert.Env Net Pat IP) (p : Parsed Net Pat) (ip : IP) :
+    CJ.Covert.isBlocklistedCovertAddr env (toPolicy p) ip = p.covertAddrBlocked env.contains ip := rfl
+
+theorem toPolicy_domain (env : CJ.Covert.Env Net Pat IP) (p : Parsed Net Pat) (host : String) :
+    CJ.Covert.isBlocklistedCovertDomain env (toPolicy p) host = p.covertDomainBlocked env.matchString host := rfl
+
+/-- **A configured blocklist entry is enforced at decision time**: in an accepted configuration without an
+allowlist, C06's admission predicate refuses every address inside a configured blocklist subnet (by
+`CJ.Props.C06.accepted_is_permitted_literal` such an address is then never accepted, stored or dialed). -/
+theorem blocklist_entry_forbids (cidr : String → Outcome Net) (re : String → Outcome Pat)
+    (ifaces : Option (List Net)) (raw : Raw) (parsed : Parsed Net Pat)
+    (h : parseBlocklists cidr re ifaces raw = .ok parsed) (hno : raw.allow = [])
+    (s : String) (hs : s ∈ raw.block) (n : Net) (hn : cidr s = .ok n)
+    (env : CJ.Covert.Env Net Pat IP) (ip : IP) (hc : env.contains n ip = true) :
+    CJ.Covert.isBlocklistedCovertAddr env (toPolicy parsed) ip = true := by
+  rw [toPolicy_addr]
+  exact (blocklist_enforced_iff cidr re ifaces raw parsed h hno env.contains ip).mpr (Or.inl ⟨s, hs, n, hn, hc⟩)
+
+/-- **A configured allowlist is enforced at decision time**: C06's admission predicate refuses every address
+outside all configured allowlist subnets, and admits every address inside one of them. -/
+theorem allowlist_forbids_outside (cidr : String → Outcome Net) (re : String → Outcome Pat)
+    (ifaces : Option (List Net)) (raw : Raw) (parsed : Parsed Net Pat)
+    (h : parseBlocklists cidr re ifaces raw = .ok parsed) (hne : raw.allow ≠ [])
+    (env : CJ.Covert.Env Net Pat IP) (ip : IP) :
+    CJ.Covert.isBlocklistedCovertAddr env (toPolicy parsed) ip = true ↔
+      ∀ s ∈ raw.allow, ∀ n, cidr s = .ok n → env.contains n ip = false := by
+  rw [toPolicy_addr]
+  constructor
+  · intro hb s hs n hp
+    cases hc : env.contains n ip with
+    | false => rfl
+    | true =>
+      have := (allowlist_enforced_iff cidr re ifaces raw parsed h hne env.contains ip).mpr ⟨s, hs, n, hp, hc⟩
+      rw [this] at hb; cases hb
+  · intro hout
+    cases hb : parsed.covertAddrBlocked env.contains ip with
+    | true => rfl
+    | false =>
+      obtain ⟨s, hs, n, hp, hc⟩ := (allowlist_enforced_iff cidr re ifaces raw parsed h hne env.contains ip).mp hb
+      rw [hout s hs n hp] at hc; cases hc
+
+/-- **A configured domain pattern is enforced at decision time** -/
+theorem domain_entry_forbids (cidr : String → Outcome Net) (re : String → Outcome Pat)
+    (ifaces : Option (List Net)) (raw : Raw) (parsed : Parsed Net Pat)
+    (h : parseBlocklists cidr re ifaces raw = .ok parsed)
+    (s : String) (hs : s ∈ raw.domains) (r : Pat) (hre : re s = .ok r)
+    (env : CJ.Covert.Env Net Pat IP) (host : String) (hm : env.matchString r host = true) :
+    CJ.Covert.isBlocklistedCovertDomain env (toPolicy parsed) host = true := by
+  rw [toPolicy_domain]
+  exact (domains_enforced_iff cidr re ifaces raw parsed h env.matchString host).mpr ⟨s, hs, r, hre, hm⟩
+
+/-- a reload whose configuration does not load leaves every decision as it was; one that loads decides
+with the new lists only -/
+theorem reload_decisions {Sel Geo : Type} (st st' : Station Sel (Parsed Net Pat) Geo) (conf : Outcome (Parsed Net Pat))
+    (sel : Option Sel) (geo : GeoLoad Geo) (h : reload st conf sel geo = .ok st')
+    (contains : Net → IP → Bool) (ip : IP) :
+    (conf = .err ∧ st'.policy.covertAddrBlocked contains ip = st.policy.covertAddrBlocked contains ip) ∨
+    (∃ pol, conf = .ok pol ∧ st'.policy.covertAddrBlocked contains ip = pol.covertAddrBlocked contains ip) := by
+  rcases reload_part_atomic st st' conf sel geo h with ⟨hc, rfl⟩ | ⟨pol, hc, hp, _, _⟩
+  · exact Or.inl ⟨hc, rfl⟩
+  · exact Or.inr ⟨pol, hc, by rw [hp]⟩
+
+end enforcement
+
+/-! ### the nil tests of the statistics printer, as extracted from the source
+
+`CJ.Gen.C19Guards.cacheCalls` is regenerated from pkg/station/liveness on every run: every method call
+through an optional cache field in every method of `*CachedLivenessTester`, with the fields whose `!= nil`
+test encloses it. -/
+
+/-- the calls of one method, as `Deref`s of the model -/
+def derefsOf (method : String) : List Deref :=
+  (CJ.Gen.C19Guards.cacheCalls.filter (fun c => c.1 == method)).map (fun c => ⟨c.2.1, c.2.2.2⟩)
+
+/-- every method call through an optional cache is enclosed by a nil test of **that** cache -/
+theorem every_cache_call_guarded : ∀ c ∈ CJ.Gen.C19Guards.cacheCalls, c.2.1 ∈ c.2.2.2 := by decide
+
+/-- the table speaks about the two cache fields of the model and nothing else -/
+theorem cache_calls_known :
+    CJ.Gen.C19Guards.optionalFields = cacheNames ∧
+    ∀ c ∈ CJ.Gen.C19Guards.cacheCalls, c.2.1 ∈ cacheNames ∧ ∀ g ∈ c.2.2.2, g ∈ cacheNames := by decide
+
+/-- the extractor saw the printer: it calls through both caches (a table that lost the printer would make
+the next theorem empty) -/
+theorem printStats_calls_present :
+    "printStats" ∈ CJ.Gen.C19Guards.methods ∧
+    (∃ d ∈ derefsOf "printStats", d.field = "ipCacheLive") ∧ (∃ d ∈ derefsOf "printStats", d.field = "ipCacheNonLive") := by
+  decide
+
+/-- **Housekeeping never panics, on the extracted guards**: for every method of the cached tester — the
+statistics printer, the cache clean-up, the query path — and every combination of configured / absent
+caches, no call goes through a nil cache. -/
+theorem housekeeping_no_panic_extracted (method : String) (live nonLive : Option CJ.Liveness.Cache) :
+    runDerefs live nonLive (derefsOf method) = .ok () := by
+  apply runDerefs_guarded
+  intro d hd
+  unfold derefsOf at hd
+  obtain ⟨c, hc, rfl⟩ := List.mem_map.mp hd
+  exact every_cache_call_guarded c (List.mem_filter.mp hc).1
+
+/-- … and that is exactly what is needed: a printer with a call that is not guarded by its own field panics
+for some accepted configuration (the defect repaired in 809a733 was `ipCacheNonLive.Len()` under
+`if ipCacheLive != nil`) -/
+theorem unguarded_call_panics :
+    ¬ ∀ live nonLive, runDerefs live nonLive [⟨"ipCacheLive", ["ipCacheLive"]⟩, ⟨"ipCacheNonLive", ["ipCacheLive"]⟩] ≠ .panic := by
+  rw [no_panic_iff_self_guarded _ (by decide)]
+  decide
 
 /-! ### non-vacuity -/
 
